@@ -409,6 +409,102 @@ def run_params_batch(ctx):
     return n
 
 
+def run_console_batches(ctx):
+    """the console (non --structured) paths, enumerated: rules entries that FAIL / PASS / SKIP on a document in every order (so the entry
+    that fails is first, in the middle, last), rules that name other rules whose status differs from document to document, documents in
+    every order; as files (default, -v, --print-json) and as --payload without --structured. The run fails iff some pair fails alone,
+    and with --print-json every document's rule statuses are those of the pair alone."""
+    r_fail = 'rule needs_on {\n  versioning == "on"\n}\n'
+    r_pass = 'rule has_name {\n  name exists\n}\n'
+    r_skip = 'rule only_prod when env == "prod" {\n  name exists\n}\n'
+    r_refs = 'rule is_prod when env == "prod" {\n  env exists\n}\nrule prod_encrypted when is_prod {\n  enc == true\n}\nrule uses {\n  is_prod or name exists\n}\nrule neg {\n  not is_prod\n}\n'
+    docs = {'dev': {'env': 'dev', 'enc': False, 'name': 'a', 'versioning': 'off'}, 'prod': {'env': 'prod', 'enc': False, 'name': 'b', 'versioning': 'on'},
+            'prod_ok': {'env': 'prod', 'enc': True, 'name': 'c', 'versioning': 'on'}}
+    rule_sets = [[r_fail, r_pass], [r_pass, r_fail], [r_fail, r_skip], [r_skip, r_fail, r_pass], [r_fail, r_pass, r_skip], [r_pass, r_skip], [r_refs], [r_refs, r_pass], [r_fail, r_refs]]
+    doc_orders = [['dev'], ['prod'], ['dev', 'prod'], ['prod', 'dev'], ['dev', 'prod_ok', 'prod'], ['prod_ok', 'dev'], ['prod', 'prod_ok', 'dev']]
+    jobs, meta = [], []
+    k = 0
+    for rs in rule_sets:
+        for do in doc_orders:
+            d = os.path.join(ctx.wd, 'cb%d' % k); k += 1
+            files = {}
+            for i, r in enumerate(rs):
+                files['r%d.guard' % i] = r
+            for j, dn in enumerate(do):
+                files['d%d_%s.json' % (j, dn)] = json.dumps(docs[dn])
+            e2e.write_files(d, files)
+            rn = ['r%d.guard' % i for i in range(len(rs))]
+            dn_ = ['d%d_%s.json' % (j, x) for j, x in enumerate(do)]
+            for i, r in enumerate(rn):
+                for j, x in enumerate(dn_):
+                    jobs.append({'args': ['validate', '-r', r, '-d', x, '-p'], 'cwd': d}); meta.append((k, 'single', (i, j), rs, do))
+            base = ['validate'] + [a for r in rn for a in ('-r', r)] + [a for x in dn_ for a in ('-d', x)]
+            for mode, extra in (('plain', []), ('verbose', ['-v']), ('print-json', ['-p'])):
+                jobs.append({'args': base + extra, 'cwd': d}); meta.append((k, mode, None, rs, do))
+            payload = json.dumps({'rules': rs, 'data': [json.dumps(docs[x]) for x in do]})
+            for mode, extra in (('payload', []), ('payload-v', ['-v']), ('payload-p', ['-p'])):
+                jobs.append({'args': ['validate', '--payload'] + extra, 'cwd': d, 'stdin': payload.encode()}); meta.append((k, mode, None, rs, do))
+    res = e2e.run_many(jobs)
+    def records(so):
+        txt, out, i = so.decode('utf-8', 'replace'), [], 0
+        dec = json.JSONDecoder()
+        while i < len(txt):
+            if txt[i] != '{':
+                i += 1
+                continue
+            try:
+                o, j = dec.raw_decode(txt, i)
+            except ValueError:
+                i += 1
+                continue
+            if isinstance(o, dict) and isinstance(o.get('container'), dict) and 'FileCheck' in o['container']:
+                out.append(o)
+            i = j
+        return out
+    def statuses(rec):
+        return sorted((c['container']['RuleCheck']['name'], c['container']['RuleCheck']['status']) for c in rec.get('children', []) if isinstance(c.get('container'), dict) and 'RuleCheck' in c['container'])
+    by = {}
+    for m, r in zip(meta, res):
+        by.setdefault(m[0], []).append((m, r))
+    n = 0
+    for kk, items in by.items():
+        singles, any_fail = {}, False
+        rs, do = items[0][0][3], items[0][0][4]
+        for (k_, mode, key, _, _), (code, so, se) in items:
+            if mode == 'single':
+                recs = records(so)
+                singles[key] = (code, statuses(recs[0]) if recs else None)
+                any_fail = any_fail or code == 19
+        if any(c not in (0, 19) for c, _ in singles.values()):
+            continue
+        want = 19 if any_fail else 0
+        info = {'class': 'isolation', 'rules': rs, 'docs': [docs[x] for x in do], 'doc_order': do}
+        for (k_, mode, key, _, _), (code, so, se) in items:
+            if mode == 'single':
+                continue
+            n += 1
+            if code != want:
+                ctx.failing('console batch (%s): exit %s although the pairs alone give %d (rules entries %d, documents %s)' % (mode, code, want, len(rs), do), dict(info, mode=mode), found=True)
+                continue
+            if mode in ('print-json', 'payload-p'):
+                recs = records(so)
+                if len(recs) != len(rs) * len(do):
+                    continue          # the record layout of this mode is C07's subject
+                idx = 0
+                for j in range(len(do)):
+                    for i in range(len(rs)):
+                        pass
+                # records come grouped by rules file, then data file, or the other way round: compare as multisets of (document index, statuses)
+                got = sorted(json.dumps(statuses(r)) for r in recs)
+                exp = sorted(json.dumps(singles[(i, j)][1]) for i in range(len(rs)) for j in range(len(do)))
+                if got != exp:
+                    ctx.failing('console batch (%s): the rule statuses printed for the documents differ from those of the pairs evaluated alone (documents %s)' % (mode, do),
+                                dict(info, mode=mode, printed=got, alone=exp), found=True)
+    ctx.coverage['console_batch_runs'] = n
+    ctx.coverage['evaluations'] += len(jobs)
+    return n
+
+
 def run(ctx):
     ctx.build(cli=True)
     pr = ctx.proofs('C12')
@@ -419,7 +515,7 @@ def run(ctx):
         ctx.coverage['inventory_' + kind] = len(cur)
         inv_problems += ['%s: %s' % (kind, p) for p in problems]
     n1 = run_validate(ctx, 120 if thorough else 24, thorough)
-    n2 = run_test_cases(ctx, 100 if thorough else 20) + run_rules_file_names(ctx) + run_params_batch(ctx)
+    n2 = run_test_cases(ctx, 100 if thorough else 20) + run_rules_file_names(ctx) + run_params_batch(ctx) + run_console_batches(ctx)
     ctx.coverage['distinct_nontrivial'] = n1 + n2
     ctx.coverage['rule'] = ('scenario = 1..3 rules files (hand-written files reusing the names v, r0, r1, r2 and the capture variable k with different meanings, '
                             'and generated programs whose names collide) x 1..4 documents; every pair alone, then the batch in up to %d orders of -r/-d, as '
